@@ -286,6 +286,31 @@ def float_order_shape(fo):
   return seen == {'log', 'inf'}
 
 
+def _scenario_counts(t):
+  """(counts got, counts wanted, universe) for the predicate text `float_order(<total>) < -10`, or None when the total is not
+  a sum of row selections of the cost model's analysis data that masks.py reads."""
+  from mmsa import masks
+  try:
+    e = ast.parse(t, mode='eval').body
+  except SyntaxError:
+    return None
+  if not (isinstance(e, ast.Compare) and len(e.ops) == 1 and isinstance(e.ops[0], ast.Lt) and norm(e.comparators[0]) == '-10'
+          and isinstance(e.left, ast.Call) and norm(e.left.func) in ('utils.float_order', 'float_order') and len(e.left.args) == 1):
+    return None
+  frame = masks.Frame('self.tbr_cost.analysis_data',
+                      {'period': {'self.df_names.period', "'period'"}, 'group': {'self.df_names.group', "'group'"}}, index0='group')
+  frame.aliases = ('self.tbr_cost.analysis_data.reset_index()',)
+  periods = ['self.periods.pre', 'self.periods.test', 'self.periods.cooldown', '<other period>']
+  groups = ['self.groups.control', 'self.groups.treatment', '<other group>']
+  universe = [{'period': p_, 'group': g_} for p_ in periods for g_ in groups]
+  try:
+    got = masks.counts(frame, e.left.args[0], universe, {'self.df_names.cost', "'cost'"})
+  except masks.Unknown:
+    return None
+  want = [1 if (r_['period'] == 'self.periods.pre' or (r_['period'] == 'self.periods.test' and r_['group'] == 'self.groups.control')) else 0 for r_ in universe]
+  return got, want, universe
+
+
 def r3_scenario(repo, rep):
   cls = repo.cls(CLS)
   f = cls.methods.get('_is_fixed_cost_scenario')
@@ -316,8 +341,17 @@ def r3_scenario(repo, rep):
   pre = "%s.loc[%s == self.periods.pre, self.df_names.cost]" % (A, per)      # (the chained spelling .loc[mask][col] is normalised to this at load time)
   tst = "%s.loc[%s == self.periods.test].loc[self.groups.control][self.df_names.cost]" % (A, per)
   want = 'utils.float_order(sum(%s) + sum(%s)) < -10' % (pre, tst)
-  rep.check_term(t == want, t, (), 'R3/scenario', 'fixed-cost iff order of magnitude of (pre-period costs + control test-period costs) < -10', f.qualname, t[:200],
-            'the scenario predicate is `%s`: it does not test exactly the pre-period costs of all groups plus the test-period costs of the control group' % t[:180], f.loc())
+  # semantic form: which kinds of rows (period x group) are added up, whatever the spelling of the masks
+  sem = _scenario_counts(t)
+  if sem is not None:
+    got_, want_, universe_ = sem
+    bad_ = [(r_, g_, w_) for r_, g_, w_ in zip(universe_, got_, want_) if g_ != w_]
+    rep.check(not bad_, 'R3/scenario', 'fixed-cost iff order of magnitude of (pre-period costs + control test-period costs) < -10 [row kinds counted: %s]' % sum(got_), f.qualname, t[:200],
+              'the scenario predicate `%s` adds up the wrong rows: a row with period %s and group %s is counted %d time(s), it must be counted %d time(s) (pre-period costs of all groups plus test-period costs of the control group)'
+              % ((t[:120],) + ((bad_[0][0]['period'].split('.')[-1], bad_[0][0]['group'].split('.')[-1], bad_[0][1], bad_[0][2]) if bad_ else ('', '', 0, 0))), f.loc())
+  else:
+    rep.check_term(t == want, t, (), 'R3/scenario', 'fixed-cost iff order of magnitude of (pre-period costs + control test-period costs) < -10', f.qualname, t[:200],
+              'the scenario predicate is `%s`: it does not test exactly the pre-period costs of all groups plus the test-period costs of the control group' % t[:180], f.loc())
   fo = repo.func('utils.float_order')
   rep.fn(fo)
   ok_fo = float_order_shape(fo)
